@@ -100,7 +100,7 @@ def compare_ort(before: onnx.ModelProto, after: onnx.ModelProto, feeds_list) -> 
             if b.dtype.kind in "fc":
                 # layout errors move distinct values (spaced >= 0.1) around; a reduction may legally
                 # re-associate its sum, so floats are compared up to a few ulps of float32
-                same = np.allclose(b.astype(np.float64), a.astype(np.float64), rtol=2e-5, atol=2e-5 * max(1.0, float(np.max(np.abs(b.astype(np.float64)))) if b.size else 1.0), equal_nan=True)
+                same = np.allclose(b.astype(np.float64), a.astype(np.float64), rtol=2e-5, atol=2e-5 * max(1.0, float(np.nanmax(np.where(np.isfinite(b.astype(np.float64)), np.abs(b.astype(np.float64)), 0.0))) if b.size else 1.0), equal_nan=True)
             else:
                 same = np.array_equal(b, a)
             if not same:
@@ -142,8 +142,8 @@ def run(chk: Check) -> None:
         fam_count[desc["family"]] = fam_count.get(desc["family"], 0) + 1
         for g in desc.get("guards", []):
             guard_count[g] = guard_count.get(g, 0) + 1
-        feeds_list = [graphgen.make_feeds(model, rng, {"B": 3, "A": 2}),
-                      graphgen.make_feeds(model, rng, {"B": 5, "A": 5})]
+        feeds_list = [graphgen.make_feeds(model, rng, {"B": 3, "A": 2, "N": 3}),
+                      graphgen.make_feeds(model, rng, {"B": 5, "A": 5, "N": 5})]
         try:
             onnx.checker.check_model(model)
             ort_outputs(model, feeds_list[0])
